@@ -193,4 +193,24 @@ def lllRepaired (t : Trace) (lat : Mat4) : Int × Option Mat4 :=
   | some r => (r, none)
   | none => if t.floatZero then (-1, none) else (0, some (runCols t.ops lat))
 
+/-! ### second repair (notes/patches/C16-fix-lll-float-zero.diff): the zero test on `B[k]`
+
+The remaining float test was `mpf_get_d(B[k]) == 0.0`: the conversion to `double` underflows to 0.0 as soon as the
+(correct, positive) `B[k]` is below 2^-1074, so full-rank lattices given by a skewed basis were reported as rank
+deficient.  The repair tests the mpf value itself (`mpf_sgn(B[k]) == 0`; kept because the next statements divide by
+`B[k]`).  Its exact counterpart — "the exact Gram-Schmidt norm of the current basis vanishes" — is what the model
+uses; it can be evaluated whenever the routine recomputes a `B[k]`, i.e. after any prefix of the operation list. -/
+
+/-- exact counterpart of `mpf_sgn(B[k]) == 0` for the current basis rows: some exact `|b*_k|^2` is not positive -/
+def exactZeroTest (q : Int) (rows : Mat4) : Bool := !(gsData q rows).pos
+
+/-- the routine after both repairs, for an arbitrary operation list: entry guard, then the (exact) zero test at
+    every prefix, then success -/
+def lllRepaired2 (q : Int) (ops : List Op) (lat : Mat4) : Int × Option Mat4 :=
+  match lllGuard lat with
+  | some r => (r, none)
+  | none =>
+    if (List.range (ops.length + 1)).any (fun n => exactZeroTest q (run (ops.take n) lat.transpose).1) then (-1, none)
+    else (0, some (runCols ops lat))
+
 end SqiModel.Lll
